@@ -18,7 +18,7 @@ structure Accepts (cfg : Cfg) (F : File) : Prop where
   tet : cfg.kind = .tet → F.topo = topoTypeTetrahedral
   hex : cfg.kind = .hex → F.topo = topoTypeHexahedral
   faces : ∀ f ∈ F.faces, addFace cfg F.edges f = .ok true
-  cells : ∀ c ∈ F.cells, addCell cfg F.faces c = .ok (some c)
+  cells : ∀ c ∈ F.cells, addCell cfg F.edges F.faces c = .ok (some c)
 
 theorem accepts_poly (cfg : Cfg) (F : File) (hk : cfg.kind = .poly) (ht : cfg.topoCheck = false) : Accepts cfg F where
   tet := by simp [hk]
@@ -34,8 +34,8 @@ theorem addFaces_all (cfg : Cfg) (edges : List (Nat × Nat)) (fs : List (List Na
     simp only [addFaces, h f (by simp), R_ok_bind, if_true]
     exact ih (fun x hx => h x (by simp [hx]))
 
-theorem addCells_all (cfg : Cfg) (faces : List (List Nat)) (cs : List (List Nat))
-    (h : ∀ c ∈ cs, addCell cfg faces c = .ok (some c)) : addCells cfg faces cs = .ok (some cs) := by
+theorem addCells_all (cfg : Cfg) (edges : List (Nat × Nat)) (faces : List (List Nat)) (cs : List (List Nat))
+    (h : ∀ c ∈ cs, addCell cfg edges faces c = .ok (some c)) : addCells cfg edges faces cs = .ok (some cs) := by
   induction cs with
   | nil => rfl
   | cons c t ih =>
@@ -157,7 +157,7 @@ theorem step_cells (hw : WF F) (hacc : Accepts cfg F) :
     have := applyTopo_cells cfg (mkS F true true F.edges F.faces [] 0 false) F.cells _ _ _ 0 hok (by simp [mkS]) (by simp [mkS])
       (fun ht => writerValMode_uniform F.cells hne 4 (by omega) (hw.tet ht).2)
       (fun ht => writerValMode_uniform F.cells hne 6 (by omega) (hw.hex ht).2)
-      (addCells_all cfg F.faces F.cells hacc.cells)
+      (addCells_all cfg F.edges F.faces F.cells hacc.cells)
     simp only [mkS, List.length_nil, List.nil_append, if_true, List.take_zero, List.drop_zero, List.map_nil,
       growStor_blank_cells, Nat.zero_add] at this ⊢
     exact this
